@@ -43,6 +43,32 @@ Proof.
   reflexivity.
 Qed.
 
+
+(* eval-level version, and structure of lin_all *)
+Theorem lin_all_eval Ls d's (cs : net) idx : cs <> [] -> length Ls = length cs -> length d's = length cs ->
+  length idx = length cs ->
+  eval (lin_all Ls d's cs) idx = dlin Ls (sshape cs) (eval cs) idx.
+Proof.
+  intros Hne H1 H2 Hi.
+  destruct cs as [|c cs]; [congruence|]. destruct Ls as [|L Ls]; [discriminate|]. destruct d's as [|d' d's]; [discriminate|].
+  unfold eval at 1. cbn [lin_all lin rl].
+  rewrite (sumn_ext (rl c) _ (fun p => 1 * dlin (L :: Ls) (sshape (c :: cs)) (fun r => evalv (c :: cs) r ones p) idx)).
+  2:{ intros p _. rewrite <- (lin_all_sound (L :: Ls) (d' :: d's) (c :: cs) idx ones p); auto.
+      cbn [lin_all]. ring. }
+  rewrite <- (dlin_sum (L :: Ls) (sshape (c :: cs)) (rl c) (fun _ => 1) (fun p r => evalv (c :: cs) r ones p) idx).
+  apply dlin_ext. intros r. unfold eval. apply sumn_ext. intros; ring.
+Qed.
+
+Lemma lin_all_struct Ls : forall d's (cs : net) r, length Ls = length cs -> length d's = length cs ->
+  chain r (lin_all Ls d's cs) = chain r cs /\ sshape (lin_all Ls d's cs) = d's /\
+  length (lin_all Ls d's cs) = length cs /\
+  match lin_all Ls d's cs, cs with a :: _, b :: _ => rl a = rl b | [], [] => True | _, _ => False end.
+Proof.
+  induction Ls as [|L Ls IH]; intros [|d' d's] [|c cs] r H1 H2; try discriminate; [repeat split; reflexivity|].
+  destruct (IH d's cs (rr c)) as (C & S & Le & _); [simpl in *; lia|simpl in *; lia|].
+  cbn [lin_all chain lin rl rr sshape map dm length]. rewrite C. repeat split; auto; f_equal; auto.
+Qed.
+
 Lemma anova_is_lin_all ws : forall (cs : net), length ws = length cs ->
   anova_net ws cs = lin_all (map amat ws) (map (fun c => S (dm c)) cs) cs.
 Proof. induction ws as [|w ws IH]; intros [|c cs] H; try discriminate; [reflexivity|].
